@@ -19,6 +19,11 @@ FIELD_KEYS = {  # reader field -> JSON keys it must be computed from (frozen wri
 SETTING_KEYS = {'hands': {'deal'}, 'dealer': {'dealer'}, 'vul': {'vulnerability'}, 'board_id': {'board_id'}, 'dda': {'dda'}}
 
 
+class OpaqueHelper(AnalysisError):
+    """A writer helper that is not a single return expression: the per-key typing rule gives no verdict for that key (what is read
+    back for it is decided by the whole-document rule R6 / R7)."""
+
+
 class _StripSerialisers(ast.NodeTransformer):
     """str(x) -> x ; convert_deal(x) -> x : what is being serialised."""
 
@@ -52,7 +57,7 @@ def _src(repo, ti, e):
             from ..paths import subst
             inl = subst(clone(body[0].value), {a.arg: v for a, v in zip(fn.args.args, e.args)})
             return _src(repo, ti, _StripSerialisers().visit(inl))
-        raise AnalysisError('C12.R2', f'{ti.mod.name.split(".")[-1]}:{e.func.id}', f'cannot see which library values the helper `{e.func.id}` serialises '
+        raise OpaqueHelper('C12.R2', f'{ti.mod.name.split(".")[-1]}:{e.func.id}', f'cannot see which library values the helper `{e.func.id}` serialises '
                                                                                      f'(not a single return expression)')
     if isinstance(e, ast.IfExp):
         a, b = _src(repo, ti, e.body), _src(repo, ti, e.orelse)
@@ -245,7 +250,11 @@ def run(chk):
             chk.require(k in read, 'C12.R2', repo.where(rec.mod, v), rec.qual, f"'{k}': {ast.unparse(v)[:60]}",
                         f'written key {k!r} is known to the reader', f'key {k!r} is written but the reader has no field for it')
             continue
-        src = source_type(repo, rec.ti, v)
+        try:
+            src = source_type(repo, rec.ti, v)
+        except OpaqueHelper as e:
+            chk.note(f'key {k!r}: {e.why} - read-back equality of this key is decided by the whole-document rule C12.R6')
+            continue
         ann = log.annots[key_field[k]]
         chk.require(agree(repo, src, ann), 'C12.R2', repo.where(rec.mod, v), rec.qual, f"'{k}': {ast.unparse(v)[:60]}",
                     f'key {k!r} serialises {show(src) if src[0] != "record" else "a record"} = what reader field {key_field[k]} declares',
